@@ -4,7 +4,7 @@ schedules, API faults, stale Lists and forced name clashes, judged by DeployCorr
 import json
 import vlib, deplib as dl, depgen, depcheck as dc
 
-NAMES = ["spec", "prev", "one", "unique", "monotone", "stable", "noreuse", "progress", "clash_progress"]
+NAMES = ["spec", "prev", "one", "unique", "monotone", "stable", "noreuse", "progress", "clash_progress", "wake"]
 WHAT = {"spec": "C07 ObjectSet created with a spec other than the template, or while paused / without phases",
         "prev": "C07 ObjectSet created while a sibling has no revision, or previous list incomplete",
         "one": "C07 second ObjectSet created although the newest one has the template's spec",
@@ -13,6 +13,8 @@ WHAT = {"spec": "C07 ObjectSet created with a spec other than the template, or w
         "stable": "C07 reported revision changed",
         "noreuse": "C07 name clash with an archived / different / older ObjectSet resolved by reusing it, or the bumped collisionCount not stored",
         "clash_progress": "C07 the same name clash met again with the same stored collisionCount (no progress towards a new ObjectSet)",
+        "wake": "C07 deployment pass with a failed request returns success without requeue: nothing wakes the controller again, "
+                "the template stays without its ObjectSet",
         "progress": "C07 template not matched by the newest ObjectSet (template change or revert to an earlier template) and no new ObjectSet requested"}
 
 
@@ -53,7 +55,7 @@ def check(run, tier, seed, replay=None):
         pairs = [(ctx, d["scenario"])]
     else:
         pairs = depgen.corpus() + depgen.histories(seed, 300 if tier == "quick" else 5000)
-    res = dl.run_cases(run, pairs, "judge07", 10, "From PKOCorr Require Import C08Corr C07Corr.", shard=100)
+    res = dl.run_cases(run, pairs, "judge07", 11, "From PKOCorr Require Import C08Corr C07Corr.", shard=100)
     npass = 0
     for ctx, sc, obs, r in res:
         if r is None:
